@@ -9,6 +9,10 @@ ids = [json.loads(l)['id'] for l in (V / 'properties.jsonl').read_text().splitli
 TECH = 'contract-based deductive verification: own VC generator (pyvc) over the real .py/.pyx source, sidecar contracts, z3/cvc5'
 
 CLAIMED = {
+	'C08': dict(
+		text='Labels: get_file_id / strip_seq_file_ext / strip_extensions are verified in the SMT theory of strings for all 14 (FASTA extension x gzip) shapes (cvc5). Order and context-freeness: query() (four input forms), query_parse(), get_sequence_files() (both channels) and SequenceFile.from_paths are verified against "one item per query, in order, item i = RI(db, params, ROW(db, query i), input i)" where ROW and RI are functions of the single query only, so no other query, batch size, chunk size or progress object can occur in a row. The end-to-end clause across channels/compression/cores is exercised by a bounded run of the real CLI against single-genome runs (labelled bounded).',
+		note='Trusted: click, pathlib/os.path as uninterpreted functions, progress helpers, the row-form contracts of C05/C13 and the functional contract of get_result_item (C03/C09/C10), exporter row order (C11).',
+		design='3/C08'),
 	'C04': dict(
 		text='genomes_by_id (strict and lenient), genomes_by_id_subset (loop invariant: parallel lists, every matched genome paired with the position of the signature carrying its identifier, positions strictly increasing, no matching signature skipped) and ReferenceDatabase.__init__ (TypeError iff id_attr absent; normal return only with len(genomes) = number of genomes in the set) are verified over opaque identifier values and a ghost genome set, for every order of signature IDs and any number of unrelated signatures. locate_files has a bounded stand-in only (real function on generated directories), and the composition with the distance matrix is exercised by the bounded run on the real SQLite/HDF5 database.',
 		note='Trusted: contracts of the three SQLAlchemy helpers and Query.count(); pigeonhole step; locate_files bounded only (labelled, not counted as proved).',
